@@ -20,6 +20,15 @@ claimed = {
  "C04": dict(cat="exploration", ref="5/C04",
    text="Bounded liveness by simulation: after the generated history all faults stop, scheduling becomes fair and the peer keeps reading; at quiescence every accepted byte must have arrived while the connection is open, and a progress-free fair phase (30000 steps) is a livelock. Backlogs are created from goroutines, open/data callbacks and before epoll registration, in LT/ET/ONESHOT.",
    tech="deterministic simulation: bounded-liveness check in a fault-free fair phase after seeded fault/schedule search"),
+ "C05": dict(cat="exploration", ref="5/C05",
+   text="Real Conn.Execute/MustExecute code under the seeded scheduler with 1-4 concurrent submitters, jobs that yield, panic or resubmit, Close at a random point and three executor kinds; the recorded history (invoke/return stamps of submissions, start/end stamps of runs) is checked against the sequential model: disjoint run intervals, exactly-once for accepted jobs, never for rejected ones, rejection only after Close was invoked and always after it returned, FIFO by real-time precedence.",
+   tech="deterministic simulation: seeded interleaving search, history checked for linearizability against a FIFO single-consumer queue model"),
+ "C16": dict(cat="exploration", ref="5/C16",
+   text="Timed histories of Set*Deadline / Write / Close on the simulated clock, which the scheduler also advances while the renewing goroutine is parked; every timeout close and, at quiescence, every deadline still in force is judged by a reference model of the documented semantics (never early, right kind, not stale, enforced). Core deadlines only; keep-alive timing of nbhttp/websocket is not covered by this check.",
+   tech="deterministic simulation: simulated clock with scheduler-controlled timer/renewal races, deadline reference model"),
+ "C18": dict(cat="exploration", ref="5/C18",
+   text="Arbitrary preceding history, then Stop / Shutdown(live ctx) raced with late connects, dials, closes and writes (optionally right after Start); bounded liveness (Stop returns in the fair phase) plus leak audit from the simulator's side: close notification per opened connection at return, listener gone, no engine goroutine alive, no simulated descriptor open, no timer armed. Core engine only.",
+   tech="deterministic simulation: bounded-liveness + leak audit (goroutines, descriptors, timers) after seeded Stop races"),
  "C17": dict(cat="exploration", ref="5/C17",
    text="Exact backlog accounting from the simulated kernel's side (accepted buffer bytes minus bytes the kernel took) compared after every call with nbio's decision (accept / ErrOverflow) and with its internal counter; fill/drain cycles and sizes around the bound are generated.",
    tech="deterministic simulation: kernel-side ground-truth accounting vs implementation decisions under seeded acceptance patterns"),
